@@ -3,7 +3,7 @@ from .. import callgraph
 from . import witness
 
 ID = "C18"
-CONFIGS = {"quick": ["K0", "K1", "K15"], "thorough": ["K0", "K1", "K2", "K3", "K4", "K5", "K6", "K7", "K8", "K9", "K10", "K11", "K12", "K13", "K14a", "K14b", "K14c", "K15", "K16"]}
+CONFIGS = {"quick": ["K0", "K1", "K13", "K14b", "K15"], "thorough": ["K0", "K1", "K2", "K3", "K4", "K5", "K6", "K7", "K8", "K9", "K10", "K11", "K12", "K13", "K14a", "K14b", "K14c", "K15", "K16"]}
 CONFIG_FAILURE_IS_VIOLATION = set(CONFIGS["thorough"])
 FIXTURES = {"alloc"}
 META = {
